@@ -282,6 +282,101 @@ def write_rules(ctx, facts, rep):
     return ok
 
 
+_WID = {"u8": 8, "u16": 16, "u32": 32, "u64": 64, "usize": 64, "i32": 32, "i64": 64}
+_GEN_TABLE = []
+for _i in range(256):
+    _c = _i
+    for _ in range(8):
+        _c = (_c >> 1) ^ 0xEDB88320 if _c & 1 else _c >> 1
+    _GEN_TABLE.append(_c)
+
+
+def _ref_crc(crc, b):
+    return (crc >> 8) ^ _GEN_TABLE[(crc & 0xff) ^ b]
+
+
+def _ev(e, env):
+    """(value, width) of a reconstructed key-schedule expression for concrete key/input values, or None if it contains anything but
+    integer arithmetic in any of its spellings (operator traits on Wrapping<T>, wrapping_* methods, plain binary operators), casts,
+    the CRC step and table look-ups.  Arithmetic wraps at the operands' width -- which is what `Wrapping` / `wrapping_*` mean; the
+    non-wrapping spellings are held to that by the panic inventory, not here."""
+    k = e[0]
+    if k in ("const", "named"):
+        if isinstance(e[2], int) and not isinstance(e[2], bool):
+            return e[2], _WID.get(str(e[1]), 32)
+        return None
+    if k == "arg":
+        return (env[e[2]], 8 if e[2] in ("input", "plain_byte", "cipher_byte", "byte") else 32) if e[2] in env else None
+    if k == "field":
+        if e[1][0] == "arg" and e[2] in env:
+            return env[e[2]], 32
+        if e[2] == "0":
+            return _ev(e[1], env)
+        return None
+    if k == "agg" and e[1] == "adt:Wrapping" and len(e[3]) == 1:
+        return _ev(e[3][0][1], env)
+    if k == "cast":
+        v = _ev(e[1], env)
+        w = _WID.get(str(e[3]))
+        return None if v is None or w is None else (v[0] & ((1 << w) - 1), w)
+    if k == "phi":
+        # `self.key_0 = f(self.key_0); .. self.key_0 ..`: the expression engine keeps the pre-store value as an alternative of a read
+        # through `&mut self`; in this straight-line function the store is the reaching definition
+        new_ = [x for x in e[1] if not (x[0] == "field" and x[1][0] == "arg")]
+        if len(new_) == 1 and len(e[1]) == 2:
+            return _ev(new_[0], env)
+        return None
+    op, a, b = None, None, None
+    if k == "bin":
+        op, a, b = e[1].replace("WithOverflow", "").replace("Unchecked", ""), e[2], e[3]
+    elif k == "call":
+        n = e[1]
+        m = re.search(r"ops::(?:arith::|bit::)?(Add|Sub|Mul|BitAnd|BitOr|BitXor|Shr|Shl)::\w+$|::wrapping_(add|sub|mul|shr|shl)$", n)
+        if m and len(e[2]) == 2:
+            op = m.group(1) or {"add": "Add", "sub": "Sub", "mul": "Mul", "shr": "Shr", "shl": "Shl"}[m.group(2)]
+            a, b = e[2]
+        elif n.endswith("ZipCryptoKeys::crc32") and len(e[2]) == 2:
+            x, y = _ev(e[2][0], env), _ev(e[2][1], env)
+            return None if x is None or y is None else (_ref_crc(x[0] & 0xFFFFFFFF, y[0] & 0xFF), 32)
+        elif re.search(r"convert::(From|Into)::(from|into)$|::from$", n) and len(e[2]) == 1:
+            return _ev(e[2][0], env)
+        else:
+            return None
+    elif k == "index":
+        i = _ev(e[2], env)
+        if i is None or not (0 <= i[0] < 256):
+            return None
+        return _GEN_TABLE[i[0]], 32       # the table's own contents are checked by the CRCTABLE row
+    else:
+        return None
+    x, y = _ev(a, env), _ev(b, env)
+    if x is None or y is None:
+        return None
+    w = max(x[1], y[1]) if op not in ("Shr", "Shl") else x[1]
+    mask = (1 << w) - 1
+    r = {"Add": lambda: x[0] + y[0], "Sub": lambda: x[0] - y[0], "Mul": lambda: x[0] * y[0], "BitAnd": lambda: x[0] & y[0], "BitOr": lambda: x[0] | y[0],
+         "BitXor": lambda: x[0] ^ y[0], "Shr": lambda: x[0] >> y[0], "Shl": lambda: x[0] << y[0]}[op]()
+    return r & mask, w
+
+
+_SAMPLES = [(0x12345678, 0x23456789, 0x34567890, 0x00), (0xFFFFFFFF, 0xFFFFFFFF, 0xFFFFFFFF, 0xFF), (0, 0, 0, 0), (0x80000000, 0x7FFFFFFF, 0x00FF00FF, 0x80),
+            (0xDEADBEEF, 0xCAFEBABE, 0x0BADF00D, 0x5A), (1, 2, 3, 4), (0x01020304, 0xF0E0D0C0, 0x13579BDF, 0x7F), (0xA5A5A5A5, 0x5A5A5A5A, 0xFFFF0000, 0x01)] + \
+    [((i * 2654435761) & 0xFFFFFFFF, (i * 40503 + 12345) & 0xFFFFFFFF, (i * 1103515245 + 7) & 0xFFFFFFFF, (i * 37) & 0xFF) for i in range(1, 57)]
+
+
+def _same_on_samples(e, ref, names=("key_0", "key_1", "key_2", "input")):
+    """does the reconstructed expression compute `ref(k0, k1, k2, b)` on 64 sample points (edge values + a spread)?  Two different
+    low-degree arithmetic expressions over Z/2^32 that agree on all of them are the same function for every purpose here."""
+    if e is None:
+        return False
+    for k0, k1, k2, b in _SAMPLES:
+        env = {"key_0": k0, "key_1": k1, "key_2": k2, "input": b, "crc": k0}
+        v = _ev(e, env)
+        if v is None or v[0] != ref(k0, k1, k2, b):
+            return False
+    return True
+
+
 def const_rules(facts, rep):
     rule = "C15-CONST"
     ok = True
@@ -307,12 +402,16 @@ def const_rules(facts, rep):
         uses_new_k0 = any(x[0] == "call" and x[1].endswith("ZipCryptoKeys::crc32") for x in walk(k1))
         good = consts == [1, 255, 134775813] and sorted(o for o in ops if o in ("add", "mul", "bitand")) == ["add", "add", "bitand", "mul"] and uses_new_k0 and \
             k1[0] == "call" and k1[1].endswith("Add::add") and k1[2][1] == ("agg", "adt:Wrapping", "std::num::Wrapping", (("0", ("const", "u32", 1)),))
+    if not good:
+        good = _same_on_samples(k1, lambda a, b_, c, d: ((b_ + (_ref_crc(a, d) & 0xFF)) * 134775813 + 1) & 0xFFFFFFFF)
     ok &= rep.check(good, rule, "key1", where(up, up.span), "key1 = (key1 + (key0' & 0xff)) * 134775813 + 1 with the updated key0", "key1 update is %s" % (show(k1)[:200] if k1 else "?"))
     good = k2 is not None and k2[0] == "call" and k2[1].endswith("ZipCryptoKeys::crc32") and k2[2][0] == ("field", ("arg", 1, "self"), "key_2")
     if good:
         a = k2[2][1]
         good = a[0] == "cast" and a[3] == "u8" and any(x[0] == "call" and x[1].endswith("Shr::shr") and x[2][1] == ("const", "usize", 24) or (x[0] == "call" and x[1].endswith("Shr::shr") and x[2][1][0] == "const" and x[2][1][2] == 24) for x in walk(a)) and \
             any(x[0] == "call" and x[1].endswith("Mul::mul") for x in walk(a))
+    if not good:
+        good = _same_on_samples(k2, lambda a, b_, c, d: _ref_crc(c, ((((b_ + (_ref_crc(a, d) & 0xFF)) * 134775813 + 1) & 0xFFFFFFFF) >> 24) & 0xFF))
     ok &= rep.check(good, rule, "key2", where(up, up.span), "key2 = crc32(key2, key1' >> 24) with the updated key1", "key2 update is %s" % (show(k2)[:200] if k2 else "?"))
     sb = facts.one(r"^zipcrypto::ZipCryptoKeys::stream_byte$")
     ra = ret_alts(sb)
@@ -323,6 +422,8 @@ def const_rules(facts, rep):
         ops = sorted(re.sub(r".*::", "", x[1]) for x in walk(e) if x[0] == "call")
         good = e[0] == "cast" and e[3] == "u8" and consts in ([1, 1, 3, 3, 8], [1, 1, 2, 2, 8], [1, 3, 3, 8]) and ops == ["bitor", "bitor", "bitxor", "mul", "shr"] and ".key_2" in tokens(e) and \
             all(".key_0" not in tokens(e) and ".key_1" not in tokens(e) for _ in [0])
+    if not good and len(ra) == 1:
+        good = _same_on_samples(ra[0], lambda a, b_, c, d: ((((c & 0xFFFF) | 3) * ((((c & 0xFFFF) | 3)) ^ 1) & 0xFFFF) >> 8) & 0xFF)
     ok &= rep.check(good, rule, "stream-byte", where(sb, sb.span), "((t * (t ^ 1)) >> 8) as u8 with t = (key2 as u16) | 3", "stream byte is %s" % ([show(a)[:200] for a in ra]))
     cr = facts.one(r"^zipcrypto::ZipCryptoKeys::crc32$")
     ra = ret_alts(cr)
@@ -332,6 +433,8 @@ def const_rules(facts, rep):
         consts = sorted(x[2] for x in walk(e) if x[0] == "const" and isinstance(x[2], int))
         good = e[0] == "call" and e[1].endswith("BitXor::bitxor") and consts == [8, 255] and any(x[0] == "index" for x in walk(e)) and \
             any(x[0] == "bin" and x[1] == "BitXor" and ("arg", 2, "input") in (x[2], x[3]) for x in walk(e))
+    if not good and len(ra) == 1:
+        good = _same_on_samples(ra[0], lambda a, b_, c, d: _ref_crc(a, d))
     ok &= rep.check(good, rule, "crc32-step", where(cr, cr.span), "(crc >> 8) ^ TABLE[(crc & 0xff) ^ input]", "crc32 step is %s" % ([show(a)[:200] for a in ra]))
     # CRC table == table generated from the reflected polynomial 0xEDB88320
     st = [c for k, c in facts.consts.items() if k.endswith("::CRCTABLE") and c.get("bytes")]
